@@ -14,7 +14,8 @@
      rt_defect P R t  =  2^63 - 1 - 719468 < t / ticks_per_day
                          (K35: the last 719468 values of time_point<days,int64>; days + 719468 overflows) *)
 From BS Require Import Base ChronoSpec ChronoModel ChronoArith ChronoDecimal ChronoSweep ChronoCalendar ChronoYear
-  ChronoSafe ChronoSafeAdd ChronoText ChronoTp ChronoTpParse ChronoTpRt ChronoTs ChronoRefute.
+  ChronoSafe ChronoSafeAdd ChronoText ChronoTp ChronoTpParse ChronoTpRt ChronoTs ChronoRefute
+  ChronoDur ChronoDurPrint ChronoDurParse ChronoDurRt.
 Local Open Scope Z_scope.
 
 (* ---- calendar: anchor + successor law over all of Z (Hinnant's civil_from_days, truncating division) ---- *)
@@ -138,21 +139,47 @@ Example T_C14_bin_ts_example :
 Proof. repeat split; vm_compute; reflexivity. Qed.
 Print Assumptions T_C14_bin_ts_example.
 
+(* ---- T_C14_duration: every duration of an int64 / int32 representation of every precision prints as an
+        ISO-8601 duration that parses back to the identical count (incl. the minimum of the type, zero, and
+        sub-second fractions) ---- *)
+Theorem T_C14_duration : forall P R d, rep2 R -> fits R d = true ->
+  exists text, dur_print P R d = Ok text /\ dur_parse P R text = Ok d.
+Proof. exact dur_roundtrip. Qed.
+Print Assumptions T_C14_duration.
+
+(* the printed form: [-]P[nD][T[nH][nM][n[.f]S]] with the successive truncating quotients of the count by the
+   ticks per day / hour / minute / second, zero components omitted, the fraction (sub-second precisions only)
+   with 1..w digits denoting exactly the remaining ticks *)
+Theorem T_C14_duration_text : forall P R c, rep2 R -> fits R c = true -> c <> 0 ->
+  let u1 := unit_ticks P 86400 in let u2 := unit_ticks P 3600 in let u3 := unit_ticks P 60 in let u4 := unit_ticks P 1 in
+  let r1 := Z.rem c u1 in let r2 := Z.rem r1 u2 in let r3 := Z.rem r2 u3 in
+  let q4 := Z.quot r3 u4 in let r4 := Z.rem r3 u4 in
+  exists sectext, dur_print P R c = Ok (sign_text c ++ [c_P] ++ dur_tail P c sectext) /\
+    (sub_second P = false -> sectext = opt_comp q4 c_S) /\
+    (sub_second P = true ->
+       (r3 = 0 /\ sectext = []) \/
+       (r3 <> 0 /\ exists ds, sectext = dec (Z.abs q4) ++ [c_dot] ++ ds ++ [c_S] /\ all_digits ds = true /\
+           (1 <= length ds <= frac_digits P)%nat /\ dec_value ds * p10 (frac_digits P - length ds) = Z.abs r4)).
+Proof. exact dur_print_ok. Qed.
+Print Assumptions T_C14_duration_text.
+
+Example T_C14_duration_example :
+  dur_print Pms I64 (-93784005) = Ok [45;80;49;68;84;50;72;51;77;52;46;48;48;53;83]%N /\ dur_parse Pms I64 [45;80;49;68;84;50;72;51;77;52;46;48;48;53;83]%N = Ok (-93784005) /\
+  dur_print Pns I64 (-9223372036854775808) = Ok [45;80;49;48;54;55;53;49;68;84;50;51;72;52;55;77;49;54;46;56;53;52;55;55;53;56;48;56;83]%N /\
+  dur_print Pd I32 (-2147483648) = Ok [45;80;50;49;52;55;52;56;51;54;52;56;68]%N /\ dur_print Ps I64 0 = Ok [80;84;48;83]%N.
+Proof. repeat split; vm_compute; reflexivity. Qed.
+Print Assumptions T_C14_duration_example.
+
 (* ======================================================================================================
    NOT PROVED (kept here at full strength; nothing below is claimed by the obligations above)
 
-   T_C14_duration :
-     forall P R d, (R = I64 \/ R = I32) -> fits R d = true ->
-       exists text, dur_print P R d = Ok text /\
-         (exists f, df_wf f /\ text = df_render f /\ df_value_ns f = d * tick_ns P /\ the components of f are
-            the days / hours < 24 / minutes < 60 / seconds < 60 / fraction of |d|, zero components omitted,
-            "PT0S" for zero) /\
-         dur_parse P R text = Ok d.
-     State of the proof: the step lemmas are proved (ChronoDur.v: dcast_unit, part_step, pstep, sec_step_frac,
-     psf_var, dur_facts — each PrintDurationPart call prints the quotient of the remaining count and leaves
-     the remainder, inside the buffer); the assembly of the four steps (dur_print_ok) and the parse-back half
-     are not finished.  The correspondence (props/C14.py: dur.print / dur.parse / sweep.rt dur) covers
-     durations behaviourally for every (P,R) of the catalogue.
+   T_C14_duration, grammar half:  the text of T_C14_duration_text is df_render f for a dur_fields f of the
+     specification with df_wf f and df_value_ns f = d * tick_ns P  (i.e. the printed text lies in the documented
+     grammar and DENOTES the duration in the sense of ChronoSpec.dur_denotes).  What is proved instead:
+     T_C14_duration_text (the exact printed form in terms of the quotients / remainders of the count) and
+     T_C14_duration (the library's own parser reads it back to the identical count); the link from that
+     explicit form to the spec's dur_fields record is not done.  uint64 durations (printable only for
+     seconds and coarser) are not covered.
 
    Representation domains not covered by the theorems above:
      - int8_t representations (K48), time_t through CRawTime (it is time_point<seconds,int64>, covered as
